@@ -2,7 +2,7 @@ use harper_core::Lrc;
 use harper_core::Token;
 use harper_core::parsers::{Markdown, MarkdownOptions, Parser};
 
-use super::without_initiators;
+use super::{Unit, without_initiators};
 
 #[derive(Clone)]
 pub struct Go {
@@ -21,28 +21,26 @@ impl Go {
 
 impl Parser for Go {
     fn parse(&self, source: &[char]) -> Vec<Token> {
-        let mut actual = without_initiators(source);
-        let mut actual_source = actual.get_content(source);
+        let actual = without_initiators(source);
+        let actual_source = actual.get_content(source);
 
-        if matches!(actual_source, ['g', 'o', ':', ..]) {
+        // Skip the line of a compiler directive such as `//go:generate`.
+        let start = if matches!(actual_source, ['g', 'o', ':', ..]) {
             let Some(terminator) = source.iter().position(|c| *c == '\n') else {
                 return Vec::new();
             };
 
-            actual.start += terminator;
+            terminator + 1
+        } else {
+            0
+        };
 
-            let Some(new_source) = actual.try_get_content(actual_source) else {
-                return Vec::new();
-            };
-
-            actual_source = new_source
-        }
-
-        let mut new_tokens = self.inner.parse(actual_source);
+        // A comment may span several lines, each with its own `//`: go line by line.
+        let mut new_tokens = Unit::new(self.inner.clone()).parse(&source[start..]);
 
         new_tokens
             .iter_mut()
-            .for_each(|t| t.span.push_by(actual.start));
+            .for_each(|t| t.span.push_by(start));
 
         new_tokens
     }
